@@ -22,7 +22,7 @@ pub fn def() -> CheckDef {
         },
         gen,
         run,
-        rule: "seeded histories (<= 25 ops: structure, whole-stream writes, handle scripts, metadata; the first cases of a run grow a V3 file past 109 FAT sectors in ~1 MB steps; every eighth history starts from a file laid out by the independent writer); a process crash is injected at EVERY boundary between two API calls (snapshot of the image without flush), the snapshot is opened in permissive and strict mode and dumped, and compared with the model (streams with unflushed handle data: everything but their content). At one drawn boundary per history the run forks: the rest of the history is executed on the live object and on the reopened snapshot, both against the model. Non-trivial: >= 1 successful mutation and >= 1 crash-point check; distinct = distinct (seam log, final image) hash.",
+        rule: "seeded histories (<= 25 ops: structure, whole-stream writes, handle scripts, metadata; the first cases of a run grow a V3 file past 109 FAT sectors in ~1 MB steps; every eighth history starts from a file laid out by the independent writer; one in 64 builds a directory of 3-4 sectors in V4 / 5-18 in V3 and then removes the entry in the first slot of a later directory sector and creates new objects into the freed slots); a process crash is injected at EVERY boundary between two API calls (snapshot of the image without flush), the snapshot is opened in permissive and strict mode and dumped, and compared with the model (streams with unflushed handle data: everything but their content). At one drawn boundary per history the run forks: the rest of the history is executed on the live object and on the reopened snapshot, both against the model. Non-trivial: >= 1 successful mutation and >= 1 crash-point check; distinct = distinct (seam log, final image) hash.",
         assumptions: &["crash = process crash / into_inner: bytes that reached write() survive (no power-loss model: the property does not state one)", "reference model as in C01"],
         cpu_limit_s: 300,
         fault_kinds: "F-CR at every operation boundary (enumerated per history); fork + continue",
@@ -60,6 +60,76 @@ fn large_case(rng: &mut Rng, idx: u64) -> Case {
     c
 }
 
+/// A directory of several sectors (V4: 66-100 entries = 3-4 sectors; V3: 18-40 sectors) built in
+/// a drawn order, then removals - with a preference for the entry sitting in the FIRST slot of a
+/// later directory sector, alone, so that it is the lowest free slot - and creations that take
+/// the freed slots again: every header / chain field that is rewritten when the directory grows
+/// must come out right when a slot is REUSED as well (strict reopen reads them all).
+fn big_dir_case(rng: &mut Rng) -> Case {
+    use crate::ops::Op;
+    let version = if rng.chance(3, 4) { 4 } else { 3 };
+    let mut c = Case::new("C02", "big-directory", version);
+    c.bufsize = *rng.pick(gen::BUFSIZES);
+    let per: u64 = if version == 4 { 32 } else { 4 };
+    let n = if version == 4 { rng.range(66, 100) } else { rng.range(18, 70) };
+    // names in a drawn insertion order (a sorted order would build a chain; C09 does that)
+    let mut order: Vec<u64> = (0..n).collect();
+    rng.shuffle(&mut order);
+    let name = |k: u64| format!("/e{:03}", k);
+    let mut is_stream = vec![false; n as usize];
+    let mut nonce = 7000u32;
+    for &k in &order {
+        if rng.chance(1, 3) {
+            nonce += 1;
+            is_stream[k as usize] = true;
+            c.ops.push(Op::WriteWhole { path: name(k), len: *rng.pick(&[0u64, 10, 70]), nonce });
+        } else {
+            c.ops.push(Op::CreateStorage(name(k)));
+        }
+    }
+    // slot s (s >= 1) holds the s-th created object = order[s - 1]
+    let rounds = rng.range(1, 3);
+    let mut alive: Vec<bool> = vec![true; n as usize];
+    let mut fresh = 0u32;
+    for _ in 0..rounds {
+        let mut victims: Vec<u64> = vec![];
+        if rng.chance(2, 3) {
+            // exactly the first slot of a later (not the last) directory sector
+            let sectors = (n + 1) / per;
+            if sectors >= 2 {
+                let s = per * rng.range(1, sectors - 1);
+                victims.push(order[(s - 1) as usize]);
+            }
+            if rng.chance(1, 3) {
+                victims.push(order[rng.below(n) as usize]);
+            }
+        } else {
+            for _ in 0..rng.range(1, 6) {
+                victims.push(order[rng.below(n) as usize]);
+            }
+        }
+        let mut removed = 0;
+        for v in victims {
+            if !alive[v as usize] {
+                continue;
+            }
+            alive[v as usize] = false;
+            removed += 1;
+            c.ops.push(if is_stream[v as usize] { Op::RemoveStream(name(v)) } else { Op::RemoveStorage(name(v)) });
+        }
+        for _ in 0..removed + rng.below(3) {
+            fresh += 1;
+            if rng.chance(1, 2) {
+                c.ops.push(Op::CreateStorage(format!("/n{:02}", fresh)));
+            } else {
+                nonce += 1;
+                c.ops.push(Op::WriteWhole { path: format!("/n{:02}", fresh), len: *rng.pick(&[0u64, 30, 5000]), nonce });
+            }
+        }
+    }
+    c
+}
+
 pub fn flags() -> Flags {
     Flags {
         property: "C02",
@@ -77,6 +147,9 @@ pub fn gen(seed: u64, idx: u64, tier: Tier) -> Case {
     let mut rng = Rng::for_case(seed, "C02", idx);
     if idx < (if tier == Tier::Quick { LARGE_QUICK } else { LARGE_THOROUGH }) {
         return large_case(&mut rng, idx);
+    }
+    if idx % 64 == 21 {
+        return big_dir_case(&mut rng);
     }
     if idx % 8 == 3 {
         // start from a file laid out by the independent writer (real red-black trees, free
